@@ -87,3 +87,14 @@ PROPS['C15'] = dict(
        'the status of every function that can fail through an allocation is used at each call site (or the failing paths are unreachable for the constant/non-null arguments passed); every locally owned allocation is released on all paths (stack-buffer idiom recognised); '
        'region operations that fail leave the broken sentinel and sentinel data is never freed. This quantifies over every allocation site and every path at once, instead of the k-th allocation of sampled runs.',
   note='Trusted: clang-14 IR = built program. Out of scope: the load-time constructor chain (unchecked implementation allocations abort at library load, outside any API call).')
+PROPS['C04'] = dict(
+  technique='static analysis: guard-pair proofs at every site that asserts SAMPLES_COVER_CLIP (T-WHO + T-GRD), repeat()/bounds typestate over constant-specialised CFGs, table licence predicate, bound-obligation propagation, edge clamps',
+  text='Decides that a COVER_CLIP bit is introduced only under guards that compare each of x1,y1 with 0, x2 with width and y2 with height (or under the glyph box intersection / the tiled-repeat modulo), and that composite32 dispatches only when both extent analyses succeeded; '
+       'that every coordinate used to address pixels without a bounds check (unchecked get_pixel calls, row addresses of the 48 generated affine fetchers and their helpers) was loaded after repeat() with the matching dimension on every path, or — per repeat-mode specialisation — passed both bounds tests of its axis; '
+       'that table entries license raw reads (C02-R1), raw API writers are bounded (C03-R2) and the edge rasterisers clamp (C04-R7). Loop-level bounds of the SIMD/C scanline routines are not decided.',
+  note='Trusted: clang-14 IR = built program. Known finding F11 (exported pixman_rasterize_edges) is listed in known_findings.json.')
+PROPS['C08'] = dict(
+  technique='static analysis: repeat typestate (shared with C04), bit-provenance of the weight/integer split (T-BIT), table-vs-instantiation agreement for the generated fetchers (T-TAB), enumerator exhaustiveness of filter/repeat switches (T-EXH)',
+  text='Decides that unchecked sampling coordinates are wrapped by repeat() with the right dimension (NONE uses the bounds-checked fetch), that the bilinear weight is exactly bits [16-B,16) and the integer part bits [16,32) of the fixed-point coordinate, that each of the 48 generated affine fetchers is registered under the format and repeat mode it was instantiated with and the untransformed fetcher excludes the repeats it does not implement, '
+       'and that every filter/repeat enumerator is handled by the switches that dispatch on it. The fetched values themselves (interpolation arithmetic, convolution alignment, SIMD scalers) are not decided.',
+  note='Trusted: clang-14 IR = built program, bitprov transfer functions.')
